@@ -291,6 +291,58 @@ pub struct T25 {
     o: Vec<B<Option<u8>>>,
 }
 
+#[derive(Serialize, Deserialize, PartialEq, Debug, Clone, Default)]
+#[serde(rename = "fl")]
+pub struct T28 {
+    #[serde(rename = "@id", default)]
+    id: Option<String>,
+    name: Option<String>,
+    #[serde(flatten)]
+    rest: BTreeMap<String, String>,
+}
+
+#[derive(Serialize, Deserialize, PartialEq, Debug, Clone)]
+#[serde(untagged)]
+pub enum T29 {
+    A { a: String },
+    Bb { b: i32, #[serde(default)] c: Vec<String> },
+    C(String),
+}
+
+#[derive(Serialize, Deserialize, PartialEq, Debug, Clone)]
+#[serde(tag = "@t")]
+pub enum T30 {
+    X { v: String },
+    Y,
+    Z { #[serde(rename = "$text", default)] t: String, #[serde(default)] w: Option<Inner> },
+}
+
+#[derive(Serialize, Deserialize, PartialEq, Debug, Clone, Copy, Default)]
+pub enum Kind {
+    #[default]
+    One,
+    Two,
+    #[serde(rename = "th ree")]
+    Three,
+}
+
+#[derive(Serialize, Deserialize, PartialEq, Debug, Clone, Default)]
+#[serde(rename = "mx")]
+pub struct T31 {
+    #[serde(rename = "@kind", default)]
+    kind: Kind,
+    #[serde(rename = "@arr", default)]
+    arr: Option<[u8; 2]>,
+    #[serde(default)]
+    row: Vec<B<Vec<B<String>>>>,
+    #[serde(default)]
+    k: Option<Kind>,
+    #[serde(default)]
+    ch: Option<char>,
+    #[serde(default)]
+    big: Option<i128>,
+}
+
 /// HashMap with an order-independent Debug rendering (iteration order of a
 /// randomised hash map must never reach a log, a digest or a replay file)
 #[derive(Deserialize, PartialEq, Clone, Default)]
@@ -303,7 +355,7 @@ impl std::fmt::Debug for HM {
     }
 }
 
-pub const N_TYPES: u32 = 28;
+pub const N_TYPES: u32 = 32;
 
 pub fn type_name(id: u32) -> &'static str {
     match id {
@@ -329,6 +381,10 @@ pub fn type_name(id: u32) -> &'static str {
         19 => "T19 {$text?, child?: Box<T19>, list?: Vec<String>} (recursive)",
         20 => "T20(String, Option<i32>) tuple struct",
         21 => "T21 {$value: Vec<String>}",
+        28 => "T28 {@id?, name?, #[serde(flatten)] BTreeMap}",
+        29 => "untagged enum T29 {A{a}|Bb{b,c*}|C(String)}",
+        30 => "internally tagged enum T30 (tag=@t) {X{v}|Y|Z{$text,w?}}",
+        31 => "T31 {@kind: enum, @arr: [u8;2]?, row*: Vec<Vec<String>>, k?: enum, ch?: char, big?: i128}",
         23 => "Vec<Option<u8>>",
         24 => "T24 {$value: Vec<Option<String>>}",
         25 => "T25 {item*: Option<Item>, $text?, @o: xs:list of Option<u8>}",
@@ -509,6 +565,18 @@ pub fn gen_valid_doc(rng: &mut Rng, ty: u32) -> String {
         }
         20 => Some(format!("<ts>{}</ts>{}", rng.pick(&["a", "", "x y"]), rng.pick(&["", "<ts>1</ts>", "<ts/>", "<ts>x</ts>"]))),
         21 => Some(format!("<vl>{}</vl>", rng.pick(&["", "a", "<a>1</a><b>2</b>", "t<a/>u", "<a>1</a>text"]))),
+        28 => Some(format!(
+            "<fl{}>{}</fl>",
+            rng.pick(&["", " id=\"1\"", " id=\"1\" x=\"y\""]),
+            rng.pick(&["", "<name>n</name>", "<name>n</name><a>1</a><b>2</b>", "<a>1</a>text<a>2</a>", "<a><b/></a>", "text", "<name/><name/>", "<a><![CDATA[x]]></a>"])
+        )),
+        29 => Some(rng.pick(&["<u><a>x</a></u>", "<u><b>1</b><c>p</c><c>q</c></u>", "<u>text</u>", "<u/>", "<u><b>x</b></u>", "<u><a>1</a><b>2</b></u>", "text", "<u><a/></u>"]).to_string()),
+        30 => Some(rng.pick(&["<i t=\"X\"><v>1</v></i>", "<i t=\"Y\"/>", "<i t=\"Z\">text<w a=\"1\"/></i>", "<i><v>1</v></i>", "<i t=\"Q\"/>", "<i t=\"X\"/>", "<i t=\"Z\"><![CDATA[]]></i>", "<i t=\"X\" t=\"Y\"><v/></i>"]).to_string()),
+        31 => Some(format!(
+            "<mx{}>{}</mx>",
+            rng.pick(&["", " kind=\"Two\"", " kind=\"th ree\"", " arr=\"1 2\"", " arr=\"1\"", " arr=\"1 2 3\"", " kind=\"\""]),
+            rng.pick(&["", "<row>a b</row><row>c</row>", "<row/>", "<k>One</k>", "<k><Two/></k>", "<ch>x</ch>", "<ch>xy</ch>", "<ch></ch>", "<big>170141183460469231731687303715884105727</big>", "<big>-1</big><row> a  b </row>", "<row>a\tb\nc</row>"])
+        )),
         23 => Some(rng.pick(&["<a>1</a><a/><a>3</a>", "<![CDATA[]]>", "<a/>", "1 2 3", "<a>1</a>", "<a><![CDATA[]]></a>", "<a xsi:nil=\"true\" xmlns:xsi=\"http://www.w3.org/2001/XMLSchema-instance\"/><a>2</a>"]).to_string()),
         24 => Some(format!("<vo>{}</vo>", rng.pick(&["", "a", "<a>1</a><b/>", "<![CDATA[]]>", "t<a/>u", "<a/><![CDATA[]]><b/>", "<a><![CDATA[]]></a>"]))),
         25 => Some(format!(
@@ -729,6 +797,10 @@ fn dispatch(plan: &Plan, from_str_too: bool) -> (Option<Res3>, Res3, bool, u32) 
         20 => de_both::<T20>(plan, from_str_too),
         21 => de_both::<T21>(plan, from_str_too),
         22 => de_both::<T22>(plan, from_str_too),
+        28 => de_both::<T28>(plan, from_str_too),
+        29 => de_both::<T29>(plan, from_str_too),
+        30 => de_both::<T30>(plan, from_str_too),
+        31 => de_both::<T31>(plan, from_str_too),
         23 => de_both::<Vec<B<Option<u8>>>>(plan, from_str_too),
         24 => de_both::<T24>(plan, from_str_too),
         25 => de_both::<T25>(plan, from_str_too),
@@ -817,6 +889,7 @@ impl Scenario for De {
         st.bump(&format!("source.{}", plan.stream.kind.name()));
         st.add("fault.short_read_pieces", calls as u64);
         classify_cuts(&plan.doc, &plan.stream.cuts, &mut st.hits);
+        st.note_schedule(crate::plan::fnv_bytes(&plan.stream.cuts.iter().flat_map(|c| c.to_le_bytes()).collect::<Vec<u8>>()) ^ crate::plan::fnv_bytes(&plan.doc) ^ calls as u64);
         let mut str_ok = false;
         for (which, r) in [("from_str", a.as_ref()), ("from_reader", Some(&b))] {
             match r {
